@@ -83,8 +83,39 @@ def adjacency_symmetry(ctx: Ctx, f, search, oid: str, build_scope=None):
     return cont
 
 
+def _zero_filled(d) -> bool:
+    """a comprehension whose innermost element is the constant 0"""
+    e = d.value if isinstance(d, ast.DictComp) else d.elt
+    while isinstance(e, (ast.DictComp, ast.ListComp)):
+        e = e.value if isinstance(e, ast.DictComp) else e.elt
+    return isinstance(e, ast.Constant) and e.value == 0 and not isinstance(e.value, bool)
+
+
+def flow_table_starts_at_zero(ctx: Ctx, f):
+    """O4 (shape-independent part): whatever table the returned dictionary reads its values from as they are, that
+    table starts empty / at zero - the flow on an arc is what the augmentations put there and nothing else."""
+    n_bare = 0
+    for s in result_sites(f):
+        sol = s.arg("solution")
+        if isinstance(sol, ast.Name):
+            ds = [d.value for d in own_nodes(f.node) if isinstance(d, ast.Assign) and ast.unparse(d.targets[0]) == sol.id]
+            sol = ds[0] if len(ds) == 1 else sol
+        if not isinstance(sol, ast.DictComp):
+            continue
+        v = sol.value
+        if not (isinstance(v, ast.Subscript) and isinstance(v.value, ast.Subscript) and isinstance(v.value.value, ast.Name)):
+            continue
+        n_bare += 1
+        tname = v.value.value.id
+        defs = [d.value for d in own_nodes(f.node) if isinstance(d, (ast.Assign, ast.AnnAssign)) and ast.unparse(d.targets[0] if isinstance(d, ast.Assign) else d.target) == tname]
+        zero = bool(defs) and all(ast.unparse(d) in ("defaultdict(lambda: defaultdict(int))", "defaultdict(lambda: defaultdict(float))") or (isinstance(d, (ast.DictComp, ast.ListComp)) and _zero_filled(d)) for d in defs)
+        ctx.ob("C08-O4", "R5 PAIRING", f, f"the table `{tname}` whose entries are returned as flow values starts at zero", zero, f"`{tname} = {ast.unparse(defs[0])[:60] if defs else '?'}`: entries of a table that starts from the capacities are residual room, not flow - returned as they are, an arc with an anti-parallel partner reports that partner's capacity on top of its flow", node=s.call)
+    ctx.count("result dictionaries read straight from a table", n_bare)
+
+
 def run(ctx: Ctx):
     f = ctx.func("flow", "max_flow")
+    ctx.step(flow_table_starts_at_zero, f)
     bfs = ctx.func("flow", "max_flow.bfs")
     ctx.step(adjacency_symmetry, f, bfs, "C08-O1")
 
@@ -324,7 +355,14 @@ def _t_residual_helper(tree):
     _residual_helper(tree, "capacity[u][v] - flow[u][v] + flow[v][u]")
 
 
+def _v_flow_table_from_capacities(tree):
+    g = M.find_func(tree, "max_flow")
+    if not M.replace_stmt(g, lambda s: isinstance(s, ast.Assign) and M.src_is(s.targets[0], "flow") and M.src_has(s.value, "defaultdict"), M.stmts("flow = {u: dict(arcs) for u, arcs in capacity.items()}")):
+        raise M.Skip("flow table definition not found")
+
+
 VARIANTS = [
+    M.Variant("the table returned as flow values starts as a copy of the capacities (seed C08-K)", FL, _v_flow_table_from_capacities, "C08-O4"),
     M.Variant("residual moved into a helper and parenthesised: reverse flow subtracted instead of added (seed C08-L)", FL, _v_residual_helper_wrong_sign, "C08-O2"),
     M.Variant("twin: residual moved into a one-expression helper", FL, _t_residual_helper, None),
     M.Variant("reverse residual arcs not materialised (original defect)", FL, _v_no_reverse, "C08-O1"),
